@@ -120,7 +120,8 @@ where
 {
     // Just decent size bounds checks to ensure we have a lot of space.
     assert!(M::FORMATTED_SIZE < BUFFER_SIZE - 2);
-    debug_assert!(bytes.len() >= BUFFER_SIZE);
+    // NOTE: The buffer may already be missing the byte of the sign.
+    debug_assert!(bytes.len() + 1 >= BUFFER_SIZE);
 
     // Config options
     let format = NumberFormat::<{ FORMAT }> {};
@@ -192,7 +193,8 @@ where
 
     // Just decent size bounds checks to ensure we have a lot of space.
     assert!(M::FORMATTED_SIZE < BUFFER_SIZE - 2);
-    debug_assert!(bytes.len() >= BUFFER_SIZE);
+    // NOTE: The buffer may already be missing the byte of the sign.
+    debug_assert!(bytes.len() + 1 >= BUFFER_SIZE);
 
     // Config options
     let format = NumberFormat::<{ FORMAT }> {};
